@@ -1042,6 +1042,7 @@ func (x *Exec) mapUpdate(st *State, t types.Type, m string, key, val *Val) {
 	pa, ca := x.use(pres), x.use(card)
 	x.mapCardAxiom(st, pa, ca, m, k)
 	present := sel(sel(pa, m), k)
+	x.freshCheck(st, pk, m, x.curPos)
 	x.setHeap(st, ck, cci, sto(ca, m, ite(present, sel(ca, m), x.sc.iAdd(sel(ca, m), x.sc.iConst(1)))))
 	x.setHeap(st, pk, pci, sto(pa, m, sto(sel(pa, m), k, "true")))
 	ls := x.leaves(mt.Elem())
@@ -1051,6 +1052,7 @@ func (x *Exec) mapUpdate(st *State, t types.Type, m string, key, val *Val) {
 		ci := x.mvInfo(ks, l)
 		h := x.heapSym(st, key, ci)
 		a := x.use(h)
+		x.freshCheck(st, key, m, x.curPos)
 		x.setHeap(st, key, ci, sto(a, m, sto(sel(a, m), k, ts[i])))
 	}
 }
@@ -1062,6 +1064,7 @@ func (x *Exec) mapDelete(st *State, t types.Type, m string, key *Val) {
 	pa, ca := x.use(pres), x.use(card)
 	x.mapCardAxiom(st, pa, ca, m, k)
 	present := and(not(eq(m, "0")), sel(sel(pa, m), k))
+	x.freshCheck(st, pk, m, x.curPos)
 	x.setHeap(st, ck, cci, sto(ca, m, ite(present, x.sc.iSub(sel(ca, m), x.sc.iConst(1)), sel(ca, m))))
 	x.setHeap(st, pk, pci, sto(pa, m, sto(sel(pa, m), k, "false")))
 }
